@@ -147,8 +147,15 @@ class Yields(object):
     if is_yield_call(call):
       return (f, call)
     targets, status = self.prog.resolve_call(call, f)
-    if status == 'cha' and self.universe is not None:
-      targets = [t for t in targets if self.universe(t)]
+    if status == 'cha':
+      # class-hierarchy analysis by name is only meaningful for the repo's own (CamelCase)
+      # protocol methods; generic lower-case names (read, write, get, close ...) on untyped
+      # receivers are library objects unless the receiver is a socket (handled by table Y)
+      nm = call_attr(call) or ''
+      if not nm.lstrip('_')[:1].isupper():
+        targets = []
+      elif self.universe is not None:
+        targets = [t for t in targets if self.universe(t)]
     for t in targets:
       r = self.func_yields(t, _stack)
       if r:
